@@ -428,3 +428,16 @@ func Regress[C any](t *testing.T, test string, check func(C) error) {
 		global.Label("regress:" + filepath.Base(f))
 	}
 }
+
+// FuzzProp runs a draw/check property under Go's native coverage-guided fuzzer: the fuzz input is the byte stream
+// rapid draws from (rapid.MakeFuzz), so the engine's coverage feedback steers the same generator and the same pure
+// checker as the rapid unit `test`; a failing case is written as that unit's replay file (./run replay works on it).
+func FuzzProp[C any](f *testing.F, test string, draw func(*rapid.T) C, check func(C) error) {
+	f.Fuzz(rapid.MakeFuzz(func(rt *rapid.T) {
+		c := draw(rt)
+		if err := Safe("", func() error { return check(c) }); err != nil {
+			WriteReplay(test, c, err)
+			rt.Fatalf("%v", err)
+		}
+	}))
+}
